@@ -98,6 +98,11 @@ type target interface {
 
 // ---- scripted notification.WebhookTargetClient
 
+// bracketSlack: the service stamps an attempt with time.Now() and stores it with full precision; the harness reads the same
+// clock right before and right after the Notify call, so the reported instant lies between the two readings. The slack only
+// covers a driver that rounds to a millisecond.
+const bracketSlack = 2 * time.Millisecond
+
 type scripted struct {
 	mu    sync.Mutex
 	out   map[string]string
@@ -105,8 +110,14 @@ type scripted struct {
 	event any
 }
 
-func (s *scripted) URLFor(i int) string { return fmt.Sprintf("http://hook-%d.verif.example/notify", i) }
-func (s *scripted) Close()              {}
+// urlTails: the URL a webhook is registered with is the URL its events are POSTed to, character for character - a path that
+// ends in a slash, upper-case letters in path and query.
+var urlTails = []string{"/notify", "/notify/", "/Notify/V2?Key=AbC&x=1", "/hook/3"}
+
+func (s *scripted) URLFor(i int) string {
+	return fmt.Sprintf("http://hook-%d.verif.example%s", i, urlTails[i%len(urlTails)])
+}
+func (s *scripted) Close() {}
 func (s *scripted) Script(o map[string]string) {
 	s.mu.Lock()
 	s.out, s.calls = o, nil
@@ -187,14 +198,16 @@ func newLiveTarget() *liveTarget {
 	return t
 }
 
-func (t *liveTarget) URLFor(i int) string { return fmt.Sprintf("%s/hook/%d", t.srv.URL, i) }
-func (t *liveTarget) Close()              { t.srv.Close() }
+func (t *liveTarget) URLFor(i int) string {
+	return fmt.Sprintf("%s/live%d%s", t.srv.URL, i, urlTails[i%len(urlTails)])
+}
+func (t *liveTarget) Close() { t.srv.Close() }
 func (t *liveTarget) Script(o map[string]string) {
 	t.mu.Lock()
 	t.out = map[string]string{}
 	for u, v := range o {
 		if pu, err := url.Parse(u); err == nil {
-			t.out[pu.Path] = v
+			t.out[pu.RequestURI()] = v
 		}
 	}
 	t.calls = nil
@@ -208,12 +221,12 @@ func (t *liveTarget) Calls() []call {
 
 func (t *liveTarget) handle(w http.ResponseWriter, r *http.Request) {
 	b, _ := io.ReadAll(r.Body)
-	c := call{URL: t.srv.URL + r.URL.Path, Method: r.Method, Headers: map[string][]string{}, Body: b}
+	c := call{URL: t.srv.URL + r.URL.RequestURI(), Method: r.Method, Headers: map[string][]string{}, Body: b}
 	for k, v := range r.Header {
 		c.Headers[textproto.CanonicalMIMEHeaderKey(k)] = append([]string(nil), v...)
 	}
 	t.mu.Lock()
-	o := t.out[r.URL.Path]
+	o := t.out[r.URL.RequestURI()]
 	t.calls = append(t.calls, c)
 	t.mu.Unlock()
 	hijack := func(raw string) {
@@ -571,9 +584,9 @@ func (e *env) runSequence(caseID string, rng *rand.Rand, maxTries, nOps int) {
 			if j.LastEmitTimestamp != nil {
 				if t, err := time.Parse(time.RFC3339Nano, *j.LastEmitTimestamp); err == nil && t.Year() > 1970 {
 					ok = true
-					// the reported instant is the instant of the attempt (bracketed by the harness around Notify; 2 s of
-					// tolerance for rounding), whatever time zone the process runs in
-					if !h.attFrom.IsZero() && (t.Before(h.attFrom.Add(-2*time.Second)) || t.After(h.attTo.Add(2*time.Second))) {
+					// the reported instant is the instant of the attempt (bracketed by the harness around Notify; 2 ms of
+					// slack for rounding), whatever time zone the process runs in
+					if !h.attFrom.IsZero() && (t.Before(h.attFrom.Add(-bracketSlack)) || t.After(h.attTo.Add(bracketSlack))) {
 						ok = false
 						r.Count("reported_attempt_times_outside_the_bracket", 1)
 					} else if !h.attFrom.IsZero() {
@@ -988,7 +1001,7 @@ func checkAuthHeaders(h map[string][]string, a auth, all []auth) string {
 }
 
 func body(r *ev.Run) {
-	r.Rule("seeded sequences of N operations over 4 URLs: register (BEARER | CUSTOM_HEADER with 5 header names | no requiredAuth; re-registration mostly with the same, sometimes other credentials) through POST /api/v1/webhook, DELETE, GET ?url=, restart (database.Init on the same file + new services), and notify = synchronous WebhooksService.Notify(event) with a scripted per-URL outcome from {200, 201, 500, 404, transport error, unreadable body}; max_tries in {1,2,3,10}; failure probability in {0.25,0.6,0.9}. A third of the sequences runs with a process time zone other than UTC; the reported time of the last attempt must lie in the bracket the harness measured around the Notify call (2 s of tolerance). Every sequence is executed twice: scripted WebhookTargetClient, and the production client against an httptest server. evaluations = executed (sequence, mode); distinct = distinct (mode, max_tries, operation/outcome string); non-trivial = the sequence delivered at least one failure and reached a deactivation or a reactivation in the model.")
+	r.Rule("seeded sequences of N operations over 4 URLs: register (BEARER | CUSTOM_HEADER with 5 header names | no requiredAuth; re-registration mostly with the same, sometimes other credentials) through POST /api/v1/webhook, DELETE, GET ?url=, restart (database.Init on the same file + new services), and notify = synchronous WebhooksService.Notify(event) with a scripted per-URL outcome from {200, 201, 500, 404, transport error, unreadable body}; max_tries in {1,2,3,10}; failure probability in {0.25,0.6,0.9}. A third of the sequences runs with a process time zone other than UTC; the reported time of the last attempt must lie in the bracket the harness measured around the Notify call (2 ms of slack): an attempt that leaves the reported time where it was is reported. Every sequence is executed twice: scripted WebhookTargetClient, and the production client against an httptest server. evaluations = executed (sequence, mode); distinct = distinct (mode, max_tries, operation/outcome string); non-trivial = the sequence delivered at least one failure and reached a deactivation or a reactivation in the model.")
 	r.Assume("'non-200 reply' is taken literally (201 counts as a failure)",
 		"after re-registering an inactive URL with different credentials either set of credentials is accepted on the POST (statement silent)",
 		"last attempt status: must contain the HTTP status code for a reply, be non-empty for a transport/body error; last attempt time: any time after 1970",
